@@ -537,6 +537,13 @@ func (sc *SizeCalculator) SplitToSize(text string, boundaries []Boundary) []stri
 
 		// Find split point using max limit (not target) to ensure chunks fit
 		splitPos := sc.FindSplitPointAt(remaining, boundaries, sc.config.Max.Value, sc.config.Max.Unit)
+		// The search above may settle on a break after the limit (it looks up to
+		// 100 bytes ahead for a sentence end). Max is a hard limit: when it is
+		// expressed in characters or tokens, fall back to the last break that
+		// still fits.
+		if limit := sc.maxSplitPos(); limit > 0 && limit < len(remaining) && splitPos > limit {
+			splitPos = lastBreakWithin(remaining, limit)
+		}
 		if splitPos <= 0 || splitPos >= len(remaining) {
 			// Can't split further, add remaining as-is
 			chunks = append(chunks, remaining)
@@ -554,6 +561,50 @@ func (sc *SizeCalculator) SplitToSize(text string, boundaries []Boundary) []stri
 	}
 
 	return chunks
+}
+
+// maxSplitPos returns the largest split position (in bytes) that keeps a chunk
+// within Max when Max is expressed in characters or tokens, and 0 when Max uses
+// a unit that has no direct character equivalent.
+func (sc *SizeCalculator) maxSplitPos() int {
+	switch sc.config.Max.Unit {
+	case SizeUnitCharacters:
+		return sc.config.Max.Value
+	case SizeUnitTokens:
+		ratio := sc.config.TokensPerChar
+		if ratio <= 0 {
+			ratio = 0.25
+		}
+		return int(float64(sc.config.Max.Value) / ratio)
+	default:
+		return 0
+	}
+}
+
+// lastBreakWithin returns the split position after the last space or newline
+// such that the text before it (without that trailing whitespace) is at most
+// limit bytes long. Without such a break it returns limit moved back to the
+// start of a UTF-8 sequence.
+func lastBreakWithin(text string, limit int) int {
+	if limit >= len(text) {
+		return len(text)
+	}
+	for i := limit; i > 0; i-- {
+		if text[i] == ' ' || text[i] == '\n' {
+			return i + 1
+		}
+	}
+	pos := limit
+	for pos > 0 && !utf8.RuneStart(text[pos]) {
+		pos--
+	}
+	if pos <= 0 {
+		pos = limit
+		for pos < len(text) && !utf8.RuneStart(text[pos]) {
+			pos++
+		}
+	}
+	return pos
 }
 
 // adjustBoundaryPositions adjusts boundary positions after a split
